@@ -236,3 +236,5 @@ b("walker-children-not-classified", ["C12"], "@seed", _os.path.join(_PD, "walker
 # PCGrad with the products <g_i^PC, g_j> kept up to date instead of recomputed (see seeded_keep/C18-r8K1): twins that break the invariant P == G @ w
 b("pcgrad-maintained-products-wrong-row", ["C18"], "@seed", _os.path.join(_PD, "pcgrad-maintained-products-wrong-row.diff"), "", "the bookkeeping subtracts row i instead of row j: later conflict tests read stale products")
 b("pcgrad-maintained-products-wrong-start", ["C18"], "@seed", _os.path.join(_PD, "pcgrad-maintained-products-wrong-start.diff"), "", "the products start from |G[i]|: conflicts with the original row are never seen")
+# Jacobian rows written into a pre-allocated buffer block by block (see seeded_keep/C07-r9K1): the twin that writes every block at row 0
+b("jac-row-buffer-always-at-zero", ["C15"], "@seed", _os.path.join(_PD, "jac-row-buffer-always-at-zero.diff"), "", "later blocks overwrite the first one and the remaining rows are uninitialised memory")
